@@ -94,4 +94,25 @@ mod verif_standins {
             assert_ne!(base.to_bytes(), ChannelId::new(mr, cr, kp.public_key(), &m, &c3).to_bytes(), "STANDIN ChannelId::new: suffix of customer account info (length {}) ignored", len);
         }
     }
+
+    /// C15 / C16: printing and parsing a channel id is lossless; malformed text is an error, never a panic
+    #[test]
+    fn standin_channel_id_text() {
+        use std::str::FromStr;
+        for id in sample_ids() {
+            let text = ChannelId(id).to_string();
+            let back = ChannelId::from_str(&text).unwrap_or_else(|e| panic!("STANDIN ChannelId text form: printed id {:?} does not parse: {}", text, e));
+            assert_eq!(back.to_bytes(), id, "STANDIN ChannelId text form: print/parse changed the id {:02x?}", id);
+            assert_eq!(back.to_string(), text, "STANDIN ChannelId text form: re-printing differs");
+            // truncated, extended and corrupted text is refused
+            // (dropping only the padding character is accepted by the base64 crate and decodes to the same 32 bytes: not demanded)
+            for bad in [&text[..text.len() - 4], "", "=", "!!!!"] {
+                assert!(ChannelId::from_str(bad).is_err(), "STANDIN ChannelId::from_str: accepted malformed text {:?}", bad);
+            }
+            let longer = base64::encode([&id[..], &[7u8][..]].concat());
+            assert!(ChannelId::from_str(&longer).is_err(), "STANDIN ChannelId::from_str: accepted a 33-byte id");
+            let shorter = base64::encode(&id[..31]);
+            assert!(ChannelId::from_str(&shorter).is_err(), "STANDIN ChannelId::from_str: accepted a 31-byte id");
+        }
+    }
 }
